@@ -240,6 +240,65 @@ theorem refs_rewritten_partial {V : Type} (s : Sch V) (h2 : addlRef s = false) (
       · exact ihc h2.1 h3.1 k hk
       · exact ihr h2.2 h3.2 k hk
 
+/-! ### the executable way back (`fromV3SO`: what FromV3SchemaRef returns, nil included) -/
+
+/-- outside the binary-string class FromV3SchemaRef returns the schema `fromV3S` describes -/
+theorem fromV3SO_eq {V : Type} (bin : List String) (s : Sch V) (h : noBinary3 bin s = true) :
+    fromV3SO bin s = some (fromV3S s) := by
+  refine (Sch.induct (P := fun s => noBinary3 bin s = true → fromV3SO bin s = some (fromV3S s))
+    (Q := fun ks => noBinary3Kids bin ks = true → fromV3KidsO bin ks = fromV3Kids ks) ?_ ?_ ?_ ?_).1 s h
+  · intro k n h
+    simp only [noBinary3, Bool.not_eq_true', decide_eq_false_iff_not] at h
+    simp only [fromV3SO, fromV3S, h, if_false]
+  · intro hd kids ih h
+    simp only [noBinary3, Bool.and_eq_true, Bool.not_eq_true', decide_eq_false_iff_not] at h
+    simp [fromV3SO, fromV3S, h.1, ih h.2]
+  · intro _; simp [fromV3KidsO, fromV3Kids]
+  · intro sl c rest ihc ihr h
+    simp only [noBinary3Kids, Bool.and_eq_true] at h
+    by_cases hs : sl = Slot.addl
+    · simp [fromV3KidsO, fromV3Kids, hs, ihr h.2]
+    · simp only [hs, if_false] at h
+      simp [fromV3KidsO, fromV3Kids, hs, ihc h.1, ihr h.2, consO]
+
+/-- a v2 schema without `file` / binary strings converts to a v3 schema without binary strings -/
+theorem noBinary3_toV3S {V : Type} (s : Sch V) (h : noBinary2 s = true) : noBinary3 [] (toV3S s) = true := by
+  refine (Sch.induct (P := fun s => noBinary2 s = true → noBinary3 [] (toV3S s) = true)
+    (Q := fun ks => noBinary2Kids ks = true → noBinary3Kids [] (toV3Kids ks) = true) ?_ ?_ ?_ ?_).1 s h
+  · intro k n _; simp [toV3S, noBinary3]
+  · intro hd kids ih h
+    simp only [noBinary2, Bool.and_eq_true, Bool.not_eq_true', beq_eq_false_iff_ne, ne_eq,
+      Bool.and_eq_false_iff] at h
+    simp only [toV3S, noBinary3, Bool.and_eq_true, ih h.2, and_true, Bool.not_eq_true', decide_eq_false_iff_not]
+    simp only [toV3Hd, fileToBinary, h.1.1, if_false]
+    intro hc
+    rcases h.1.2 with h2 | h2
+    · exact h2 hc.1
+    · exact h2 hc.2
+  · intro _; simp [toV3Kids, noBinary3Kids]
+  · intro sl c rest ihc ihr h
+    simp only [noBinary2Kids, Bool.and_eq_true] at h
+    by_cases hs : sl = Slot.addl
+    · simp [toV3Kids, noBinary3Kids, hs, ihr h.2]
+    · simp only [hs, if_false] at h
+      simp [toV3Kids, noBinary3Kids, hs, ihc h.1, ihr h.2]
+
+/-- Full statement: for every v2 schema `s`, FromV3SchemaRef (ToV3SchemaRef s) is a schema that says what `s`
+    says. Fails inside `hasDisc`, `addlRef` (#21) and for `file` / binary strings (F-C17-12). -/
+theorem roundtripS_exec_partial {V : Type} (s : Sch V) (h0 : noBinary2 s = true) (h1 : hasDisc s = false)
+    (h2 : addlRef s = false) (h3 : v2Refs s = true) :
+    ∃ s', fromV3SO [] (toV3S s) = some s' ∧ abs2S s' = abs2S s :=
+  ⟨_, fromV3SO_eq [] (toV3S s) (noBinary3_toV3S s h0), roundtripS_partial s h1 h2 h3⟩
+
+/-- witness (F-C17-12): a `file` / binary-string schema has no schema on the way back, and a query parameter
+    of that type makes FromV3Parameter dereference nil (`none` = panic) -/
+theorem roundtrip_witness_binary :
+    let s : Sch Nat := .node { ty := some "file" } []
+    let p : Param2 Nat := { name := "q", loc := "query", required := false,
+                            cons := { ty := some "string", fmt := some "binary" }, items := none, schema := none }
+    noBinary2 s = false ∧ fromV3SO [] (toV3S s) = none ∧ (fromV3ParamO [] (toV3Param p)).isNone = true := by
+  simp [noBinary2, toV3S, toV3Kids, fromV3SO, toV3Hd, fileToBinary, fromV3ParamO, toV3Param, paramSchema2, itemsKids, conv]
+
 /-! ## parameters and headers -/
 
 
@@ -862,6 +921,97 @@ example :
                   ops := [{ method := "get", opId := "g", consumes := [], produces := [], params := [.val q],
                             responses := [("200", r200), ("302", r302), ("404", .ref RK.resp2 "nf")] }] }] }
     docSimple d = true := by
+  decide
+
+/-! ## validation of the converted document -/
+
+theorem ainsert_all {α : Type} (P : String → Bool) (k : String) (v : α) (l : List (String × α))
+    (hk : P k = true) (hl : l.all (fun kv => P kv.1) = true) : (ainsert k v l).all (fun kv => P kv.1) = true := by
+  induction l with
+  | nil => simp [ainsert, hk]
+  | cons kv rest ih =>
+    obtain ⟨k', v'⟩ := kv
+    simp only [List.all_cons, Bool.and_eq_true] at hl
+    unfold ainsert
+    split
+    · simp [hk, hl.2]
+    · simp [hl.1, ih hl.2]
+
+theorem sharedP3_names {V : Type} (c : List String) (l : List (String × PRef2 V))
+    (h : l.all (fun kv => identOK kv.1) = true) :
+    (sharedP3 c l).1.all (fun kv => identOK kv.1) = true ∧ (sharedP3 c l).2.1.all (fun kv => identOK kv.1) = true ∧
+    (sharedP3 c l).2.2.all (fun kv => identOK kv.1) = true := by
+  induction l with
+  | nil => simp [sharedP3]
+  | cons kp rest ih =>
+    obtain ⟨k, p⟩ := kp
+    simp only [List.all_cons, Bool.and_eq_true] at h
+    have ih' := ih h.2
+    unfold sharedP3
+    split
+    rename_i a b cc heq
+    rw [heq] at ih'
+    simp only at ih'
+    cases toV3P { cbodies := [], cschemas := [] } c p with
+    | param q => simp [h.1, ih'.1, ih'.2.1, ih'.2.2]
+    | body x => simp [h.1, ih'.1, ih'.2.1, ih'.2.2]
+    | form n s => simp [h.1, ih'.1, ih'.2.1, ih'.2.2]
+
+theorem mapSecs_names (l : List (String × Sec2)) (l' : List (String × Sec3)) (h : mapSecs l = .ok l')
+    (hn : l.all (fun kv => identOK kv.1) = true) : l'.all (fun kv => identOK kv.1) = true := by
+  induction l generalizing l' with
+  | nil => simp [mapSecs] at h; subst h; rfl
+  | cons ks rest ih =>
+    obtain ⟨k, s⟩ := ks
+    simp only [List.all_cons, Bool.and_eq_true] at hn
+    unfold mapSecs at h
+    split at h
+    · simp at h
+    · split at h
+      · simp at h
+      · rename_i ts hts
+        simp only [Res.ok.injEq] at h
+        subst h
+        simp [hn.1, ih ts hts hn.2]
+
+theorem mergeSchemas_names {V : Type} (defs : List (String × Sch V)) (acc : List (String × CSchema V))
+    (ha : acc.all (fun kv => identOK kv.1) = true) (hd : defs.all (fun kv => identOK kv.1) = true) :
+    (mergeSchemas acc defs).all (fun kv => identOK kv.1) = true := by
+  unfold mergeSchemas
+  induction defs generalizing acc with
+  | nil => simpa using ha
+  | cons d rest ih =>
+    simp only [List.all_cons, Bool.and_eq_true] at hd
+    simp only [List.foldl_cons]
+    exact ih _ (ainsert_all identOK d.1 _ acc hd.1 ha) hd.2
+
+/-- Full statement: the converted document passes validation. It fails when a shared name is outside the v3
+    identifier alphabet (finding #38). **toV3_validates** — for the part of `Validate` the conversion itself can
+    break (component names); the rest of `Validate` is exercised by the differential run, not modelled. -/
+theorem toV3_validates_partial {V : Type} (d : Doc2 V) (d3 : Doc3 V) (h : toV3Raw d = .ok d3)
+    (hn : namesOK d = true) : validates3 d3 = true := by
+  simp only [namesOK, Bool.and_eq_true] at hn
+  obtain ⟨⟨⟨hp, hr⟩, hd⟩, hs⟩ := hn
+  have hsh := sharedP3_names d.consumes d.params hp
+  unfold toV3Raw at h
+  simp only at h
+  split at h
+  · simp at h
+  · split at h
+    · simp at h
+    · rename_i secs hsecs
+      simp only [Res.ok.injEq] at h
+      subst h
+      simp only [validates3, Bool.and_eq_true]
+      refine ⟨⟨⟨⟨hsh.1, hsh.2.1⟩, mergeSchemas_names d.defs _ hsh.2.2 hd⟩, ?_⟩, mapSecs_names d.secs secs hsecs hs⟩
+      simpa [List.all_map] using hr
+
+/-- witness (#38): a definition named `My Def` — the converted document has a component that is not an
+    identifier -/
+theorem toV3_validates_witness :
+    let d : Doc2 Nat := { loc := { host := "", basePath := "", schemes := [] }, consumes := [], produces := [],
+                          params := [], responses := [], defs := [("My Def", .node {} [])], secs := [], paths := [] }
+    namesOK d = false ∧ (match toV3Raw d with | .ok d3 => validates3 d3 | .error _ => true) = false := by
   decide
 
 end KinModel.Conv
